@@ -6,7 +6,8 @@
    Part 1 states the property once for every format that satisfies the obligations [laws];
    part 2 states that the five modelled handlers satisfy them; part 3 that the transcriptions of
    the handlers' code (Model/Cont*.v, tied to the implementation by the correspondence run) are the
-   reference operations; part 4 lifts PNG and JPEG to bytes; part 5 is the RIFF remove defect.
+   reference operations; part 4 lifts PNG and JPEG to bytes.
+   RIFF remove (formerly F-RIFF-REMOVE) is the generic remove since fix eec3bf439.
    Admissible stores/assets: [c2pa_adm], [png_adm], [jadm]/[jseg_ok], [gif_adm], [riff_adm]. *)
 From Coq Require Import List NArith Bool Lia.
 From C2PA Require Import Base.Bytes Model.Container Model.ContPng Model.ContJpeg Model.ContGif Model.ContRiff Model.ContRun
@@ -107,10 +108,22 @@ Theorem c07_gif_handlers :
     /\ (match find_index is_c2pa_block bs with Some j => remove_nth j bs | None => bs end) = gremove gif_format bs.
 Proof. intros bs b H. split; [exact (gif_write_blocks_generic bs b H)| exact (gif_remove_blocks_generic bs H)]. Qed.
 
-(* RIFF inject_c2pa with a non-empty store *)
-Theorem c07_riff_write_handler :
-  forall cs b, b <> [] -> riff_write_children cs b = gwrite riff_format cs b.
-Proof. exact riff_write_children_generic. Qed.
+(* RIFF inject_c2pa: with a non-empty store it is the generic write, with strip_c2pa and an empty store
+   (remove_cai_store_from_stream after fix eec3bf439) the generic remove *)
+Theorem c07_riff_handlers :
+  forall cs b, b <> [] ->
+    riff_write_children false cs b = gwrite riff_format cs b
+    /\ riff_write_children true cs [] = gremove riff_format cs.
+Proof. intros cs b H. split; [exact (riff_write_children_generic cs b H)| exact (riff_remove_children_generic cs)]. Qed.
+
+(* hence: removing the manifest from a RIFF asset leaves no manifest and the other chunks unchanged *)
+Theorem c07_riff_remove :
+  forall cs, gread riff_format (riff_write_children true cs []) = RErr EJumbfNotFound
+             /\ strip riff_format (riff_write_children true cs []) = strip riff_format cs.
+Proof.
+  intro cs. rewrite riff_remove_children_generic. split;
+    [apply (read_remove _ _ _ riff_laws); apply Forall_forall; intros; exact I| exact (strip_remove _ _ _ riff_laws cs)].
+Qed.
 
 (* ---- 4. PNG and JPEG on bytes.  PNG: every valid PNG = encoding of a well-formed chunk list ---- *)
 Theorem c07_png_decode_encode : forall cs tr, chunks_wf cs -> png_dec (png_enc cs tr) = ROk (cs, tr).
@@ -141,14 +154,6 @@ Proof. exact jpeg_run_bytes. Qed.
 
 Theorem c07_jpeg_read_bytes : forall l, jwf l -> jpeg_read (jpeg_enc l) = nonempty_or_notfound (gread jpeg_format l).
 Proof. exact jpeg_read_bytes. Qed.
-
-(* ---- 5. RIFF remove (F-RIFF-REMOVE): remove is write_cai with an empty store, which is the identity ---- *)
-Theorem c07_riff_remove_refuted :
-  exists cs b, b <> [] /\ riff_payload (riff_write_children (riff_write_children cs b) []) = ROk b.
-Proof. exact riff_remove_refuted. Qed.
-
-Theorem c07_riff_remove_is_identity : forall cs, riff_write_children cs [] = cs.
-Proof. exact riff_remove_is_identity. Qed.
 
 (* the hypotheses are satisfiable and the byte-level models compute: a 1x1 PNG, write then read *)
 Example c07_example_png :
